@@ -62,6 +62,19 @@ CLAIMS = {
         note="Partial proof; raw view only so far (merged-text view pending). Oracle = tools/gen/xmlgen.py denote.",
         technique="Lean 4 proof (partial) + translator + differential correspondence against model and denotation oracle",
         ref="DESIGN.md section 6 C01"),
+    "C03": dict(
+        text="Totality of the parse / infoset / print pipeline. Kernel-checked on the model (all inputs): every model function is a "
+             "terminating total function into ok/error (no panic outcome exists), a non-`fuel` parser answer does not depend on the "
+             "amount of fuel, parameter-entity references and cyclic entity definitions are errors, and no accepted document nests "
+             "elements deeper than the limit constant read from the source by the translator (so every recursion over an accepted "
+             "document is bounded). Tie: outcome class (ok/rest/err vs panic/abort/timeout) of the real pipeline (both DOM views, "
+             "Display, pretty, DOM walk) in an isolated worker on garbage, token mutants and 21 adversarial families incl. hostile "
+             "sizes, compared with the model's class; growth ratio time(2n)/time(n) per family.",
+        note="Partial by nature: real stack exhaustion and running time are runtime facts the model cannot exhibit; they are measured "
+             "(outcome classes, doubling ratios), not proved. `xml_fuel_sufficient` (the model driver's fuel formula never runs out) is "
+             "checked on every explored input, not proved. Trusted: Lean kernel, translator, harness `pipeline`, generators.",
+        technique="Lean 4 proof (fuel monotonicity, depth bound by inversion, error theorems) + translator + isolated-worker differential outcome classes and growth measurement",
+        ref="DESIGN.md section 6 C03"),
 }
 
 PENDING_REASON = "check not built yet (work in progress; see DESIGN.md section 10 build order)"
